@@ -85,6 +85,10 @@ def wide(c):
             c.traces_validated += 1
             continue
         ev = json.loads(open(trace).read().splitlines()[at - 1])
+        if ev.get("op") == "ManyPatterns":
+            c.report_failure("kv: ListKeys answered wrongly after one storage had served hundreds of distinct patterns (%s)" % variant,
+                             {"rejected_at_line": at, "event": ev})
+            continue
         bad = [s for s in ev.get("slots", []) if s[0] != s[1] or (s[0] == 1 and s[2] != s[3])][:5]
         c.report_failure("kv: GetMany with %s keys after one PutMany (%s): a slot does not hold the record of the requested key" % (
                          "more than 64" if ev.get("n", 0) > 64 else "few", variant),
